@@ -71,5 +71,6 @@ for key in sorted(res):
         verdict = 'not caught (cross-run for information: the change breaks ' + own + ', not ' + pid + ')'
     rows.append(f"| {pid} | `{patch}` | {own} | {verdict} | {v['first'].replace('|', '/')[:220]} |")
 s = open('DESIGN.md').read()
-s = re.sub(r'<!--matrix-->.*?<!--/matrix-->', '<!--matrix-->\n' + '\n'.join(rows) + '\n<!--/matrix-->', s, flags=re.S)
+table = '<!--matrix-->\n' + '\n'.join(rows) + '\n<!--/matrix-->'
+s = re.sub(r'<!--matrix-->.*?<!--/matrix-->', lambda m: table, s, flags=re.S)
 open('DESIGN.md', 'w').write(s)
